@@ -64,7 +64,7 @@ def alphabet(n):
         ops.append(("low_pass", c))
         ops.append(("high_pass", c))
     ops += [("subtract", "each"), ("subtract", "same")]
-    ops += [("dict", v) for v in ("json", "twice", "noopt", "noversion", "nomplu")]
+    ops += [("dict", v) for v in ("json", "twice", "noopt", "noversion", "nomplu", "v1")]
     ops += [("duplicate",), ("average",), ("getters",), ("reconstruct", "asc"), ("reconstruct", "desc")]
     return ops
 
@@ -141,10 +141,22 @@ def export(d, variant):
     if variant == "twice":
         return x
     x = json.loads(json.dumps(x))
+    if variant == "v1":
+        return to_v1(x)
     drop = {"json": (), "noopt": OPTIONAL_KEYS, "noversion": ("version",), "nomplu": ("path", "label", "uuid")}[variant]
     for k in drop:
         x.pop(k, None)
     return x
+
+
+V1_NAMES = {"frequencies": "frequency", "real_impedances": "real", "imaginary_impedances": "imaginary"}
+
+
+def to_v1(x):
+    """the same data set as a version-1 file stored it: other names for the three columns, no uuid"""
+    y = {V1_NAMES.get(k, k): v for k, v in x.items() if k != "uuid"}
+    y["version"] = 1
+    return y
 
 
 def apply_real(d, op, M):
@@ -319,6 +331,8 @@ def repro_src(seq, want, frame=False):
         elif name == "dict":
             if op[1] == "twice":
                 lines.append("x = d.to_dict(); d = DataSet.from_dict(x); d2 = DataSet.from_dict(x); assert view(d) == view(d2)")
+            elif op[1] == "v1":
+                lines.append(f"x = json.loads(json.dumps(d.to_dict())); x = {{ {V1_NAMES!r}.get(k, k): v for k, v in x.items() if k != 'uuid'}}; x['version'] = 1; d = DataSet.from_dict(x)")
             else:
                 drop = {"json": (), "noopt": OPTIONAL_KEYS, "noversion": ("version",), "nomplu": ("path", "label", "uuid")}[op[1]]
                 lines.append(f"x = json.loads(json.dumps(d.to_dict())); [x.pop(k, None) for k in {drop!r}]; d = DataSet.from_dict(x)")
@@ -364,7 +378,7 @@ def opkind(op, M):
         return f"construct-{order}" + ("" if mask is None else "+mask")
     if op[0] == "dict":
         return {"json": "from_dict:json", "twice": "from_dict:same-dict-twice", "noopt": "from_dict:without-optional-keys",
-                "noversion": "from_dict:without-version", "nomplu": "from_dict:without-path-label-uuid"}[op[1]]
+                "noversion": "from_dict:without-version", "nomplu": "from_dict:without-path-label-uuid", "v1": "from_dict:version-1"}[op[1]]
     if op[0] == "set_mask":
         return "set_mask" + (":empty" if not op[1] else "")
     return op[0]
